@@ -7,7 +7,8 @@ in progress, kept in a waiter — is *accounted for*:
 * a record with retry number `0` carries no previous exception and no failure time;
 * a record with retry number `k ≠ 0` carries the first-attempt time `t0`, the time `tf` and the exception `exc` of its
   last failure, `0 < t0 ≤ tf ≤ now`, and **the step's retry policy granted this retry**: asked with
-  `(elapsed = tf − t0, failures = k, exc)` it answered with a delay.
+  `(elapsed = tf − t0, failures = k, exc)` it answered with a delay — and so it did for every retry number `1, …, k − 1`
+  before it, at non-decreasing elapsed times (`Granted`: retry numbers are never skipped).
 
 Consequently no invocation ever runs with a retry number its policy did not grant, whatever the policy is; budgets
 (`stop_after_attempt`, `stop_after_delay`, trees of them) are corollaries in `WfProps/C05.lean`.
@@ -43,18 +44,45 @@ theorem acct_of_retryRec {a b : InProg} (h : a.retryRec = b.retryRec) : a.acct =
   simp only [InProg.retryRec, RetryRec.mk.injEq] at h
   simp [InProg.acct, h]
 
+/-- retry number `k ≥ 1` was reached through GRANTED retries `1, …, k`, asked at non-negative, non-decreasing elapsed
+times; the last one for exception `exc` at elapsed time `el` -/
+def Granted (cfg : Cfg) (pol : Policy) (s : Nat) : Nat → Int → Nat → Prop
+  | 0, _, _ => False
+  | k + 1, el, exc => 0 ≤ el ∧ (∃ d, retryDecision cfg pol s el (k + 1) exc = .retry d) ∧
+      (k = 0 ∨ ∃ el' exc', el' ≤ el ∧ Granted cfg pol s k el' exc')
+
+theorem Granted.head {cfg : Cfg} {pol : Policy} {s k : Nat} {el : Int} {exc : Nat} (h : Granted cfg pol s k el exc) :
+    k ≠ 0 ∧ 0 ≤ el ∧ ∃ d, retryDecision cfg pol s el k exc = .retry d := by
+  cases k with
+  | zero => exact absurd h (by simp [Granted])
+  | succ k => exact ⟨by omega, h.1, h.2.1⟩
+
+/-- every retry number up to `k` was granted, at an elapsed time not after the last one -/
+theorem Granted.all {cfg : Cfg} {pol : Policy} {s : Nat} : ∀ {k : Nat} {el : Int} {exc : Nat}, Granted cfg pol s k el exc →
+    ∀ j, 1 ≤ j → j ≤ k → ∃ el' exc' d, 0 ≤ el' ∧ el' ≤ el ∧ retryDecision cfg pol s el' j exc' = .retry d
+  | 0, _, _, h, _, _, _ => absurd h (by simp [Granted])
+  | k + 1, el, exc, h, j, h1, h2 => by
+    by_cases hj : j = k + 1
+    · subst hj
+      obtain ⟨d, hd⟩ := h.2.1
+      exact ⟨el, exc, d, h.1, Int.le_refl _, hd⟩
+    · rcases h.2.2 with hk | ⟨el', exc', hle, hg⟩
+      · omega
+      · obtain ⟨el'', exc'', d, a1, a2, a3⟩ := Granted.all hg j h1 (by omega)
+        exact ⟨el'', exc'', d, a1, by omega, a3⟩
+
 /-- the record `r`, held for step `s`, is accounted for at clock `now` -/
 def RecOk (cfg : Cfg) (pol : Policy) (now : Int) (s : Nat) (r : Acct) : Prop :=
   (∀ t0, r.f = some t0 → 0 < t0 ∧ t0 ≤ now) ∧
   (r.k = 0 → r.x = none ∧ r.l = none) ∧
-  (r.k ≠ 0 → ∃ t0 tf exc d, r.f = some t0 ∧ r.l = some tf ∧ r.x = some exc ∧ t0 ≤ tf ∧ tf ≤ now ∧
-      retryDecision cfg pol s (tf - t0) r.k exc = .retry d)
+  (r.k ≠ 0 → ∃ t0 tf exc, r.f = some t0 ∧ r.l = some tf ∧ r.x = some exc ∧ t0 ≤ tf ∧ tf ≤ now ∧
+      Granted cfg pol s r.k (tf - t0) exc)
 
 theorem RecOk.mono {cfg : Cfg} {pol : Policy} {now now' : Int} {s : Nat} {r : Acct} (h : RecOk cfg pol now s r)
     (hn : now ≤ now') : RecOk cfg pol now' s r := by
   refine ⟨fun t0 ht => ⟨(h.1 t0 ht).1, by have := (h.1 t0 ht).2; omega⟩, h.2.1, fun hk => ?_⟩
-  obtain ⟨t0, tf, exc, d, h1, h2, h3, h4, h5, h6⟩ := h.2.2 hk
-  exact ⟨t0, tf, exc, d, h1, h2, h3, h4, by omega, h6⟩
+  obtain ⟨t0, tf, exc, h1, h2, h3, h4, h5, h6⟩ := h.2.2 hk
+  exact ⟨t0, tf, exc, h1, h2, h3, h4, by omega, h6⟩
 
 /-- a record that never failed and was never started: what `ctx.send_event`, a step's returned event, the start
 event and a `StepFailedEvent` routed to its handler carry -/
@@ -78,8 +106,8 @@ theorem RecOk.start {cfg : Cfg} {pol : Policy} {now : Int} {s : Nat} {a : Attemp
     cases hfa : a.firstAt with
     | none => simp only [hfa, orInt] at ht; subst ht; exact ⟨hnow, Int.le_refl _⟩
     | some v => rw [hf v hfa] at ht; subst ht; exact h.1 v hfa
-  · obtain ⟨t0, tf, exc, d, h1, h2, h3, h4, h5, h6⟩ := h.2.2 hk
-    exact ⟨t0, tf, exc, d, by simp only [Attempt.acct] at h1; simp [hf t0 h1], h2, h3, h4, h5, h6⟩
+  · obtain ⟨t0, tf, exc, h1, h2, h3, h4, h5, h6⟩ := h.2.2 hk
+    exact ⟨t0, tf, exc, by simp only [Attempt.acct] at h1; simp [hf t0 h1], h2, h3, h4, h5, h6⟩
 
 def AcctSS (cfg : Cfg) (pol : Policy) (now : Int) (s : Nat) (ss : StepState) : Prop :=
   (∀ a ∈ ss.queue, RecOk cfg pol now s a.acct) ∧ (∀ ip ∈ ss.inProg, RecOk cfg pol now s ip.acct) ∧
@@ -108,10 +136,10 @@ def AttFor (cfg : Cfg) (pol : Policy) (now : Int) (att : Attempt) (target : Opti
 
 /-- what a failure report says: `attempts ≥ 1`, a non-negative elapsed time, issued only when the step's policy
 (if any) refused a retry at exactly `(elapsed, attempts, exc)`, and — unless it is the first failure — the policy had
-granted retry number `attempts − 1` -/
+granted the retries `1, …, attempts − 1` -/
 def FailRep (cfg : Cfg) (pol : Policy) (s exc a : Nat) (el : Int) : Prop :=
   1 ≤ a ∧ 0 ≤ el ∧ (∀ d, retryDecision cfg pol s el a exc ≠ .retry d) ∧
-    (a ≠ 1 → ∃ el' exc' d, 0 ≤ el' ∧ el' ≤ el ∧ retryDecision cfg pol s el' (a - 1) exc' = .retry d)
+    (a ≠ 1 → ∃ el' exc', el' ≤ el ∧ Granted cfg pol s (a - 1) el' exc')
 
 /-- commands that carry retry accounting carry accounted records; the reducer's own failure reports are exact -/
 def CmdOk (cfg : Cfg) (pol : Policy) (now : Int) : Cmd → Prop
@@ -305,10 +333,10 @@ theorem failRep_of {cfg : Cfg} {pol : Policy} {t : Int} {step exc : Nat} {exec :
   have h1 := h.1 exec.firstAt rfl
   refine ⟨by omega, by omega, hno, fun hk => ?_⟩
   have hk' : exec.acct.k ≠ 0 := by simp only [InProg.acct]; omega
-  obtain ⟨t0, tf, exc', d, e1, e2, e3, e4, e5, e6⟩ := h.2.2 hk'
+  obtain ⟨t0, tf, exc', e1, e2, e3, e4, e5, e6⟩ := h.2.2 hk'
   simp only [InProg.acct, Option.some.injEq] at e1 e6
   subst e1
-  exact ⟨tf - exec.firstAt, exc', d, by omega, by omega, by simpa using e6⟩
+  exact ⟨tf - exec.firstAt, exc', by omega, by simpa using e6⟩
 
 theorem retry_record_ok {cfg : Cfg} {pol : Policy} {now t : Int} {step exc d : Nat} {exec : InProg} {ev : Ev} {rc : RC}
     (h : RecOk cfg pol t step exec.acct) (ht : t ≤ now)
@@ -318,10 +346,18 @@ theorem retry_record_ok {cfg : Cfg} {pol : Policy} {now t : Int} {step exc d : N
          lastFailedAt := some t, rc := rc } : Attempt).acct := by
   have h1 := h.1 exec.firstAt rfl
   simp only [Attempt.acct, orNat_some_zero]
-  refine ⟨?_, fun hk => by simp at hk, fun _ => ⟨exec.firstAt, t, exc, d, rfl, rfl, rfl, h1.2, ht, hd⟩⟩
-  intro t0 ht0
-  simp only [Option.some.injEq] at ht0; subst ht0
-  exact ⟨h1.1, by omega⟩
+  refine ⟨?_, fun hk => by simp at hk, fun _ => ⟨exec.firstAt, t, exc, rfl, rfl, rfl, h1.2, ht, ?_⟩⟩
+  · intro t0 ht0
+    simp only [Option.some.injEq] at ht0; subst ht0
+    exact ⟨h1.1, by omega⟩
+  · refine ⟨by omega, ⟨d, hd⟩, ?_⟩
+    by_cases hk : exec.attempts = 0
+    · exact Or.inl hk
+    · have hk' : exec.acct.k ≠ 0 := by simpa [InProg.acct] using hk
+      obtain ⟨t0, tf, exc', e1, e2, e3, e4, e5, e6⟩ := h.2.2 hk'
+      simp only [InProg.acct, Option.some.injEq] at e1 e6
+      subst e1
+      exact Or.inr ⟨tf - exec.firstAt, exc', by omega, e6⟩
 
 theorem applyRes_acct (cfg : Cfg) (pol : Policy) (step : Nat) (tickEv : Ev) (dc : Bool) (acc : ResAcc) (r : Res)
     (now : Int) (hst : AcctSt cfg pol now acc.st) (hex : RecOk cfg pol now step acc.exec.acct)
